@@ -15,7 +15,10 @@ package main
 //   part (c)  c15_join.go: joins racing with dispatches.
 //   part (d)  c15_wire.go: the last hop — real WebSocket clients of the real handlers, frame by frame, against Model.WsWire.
 //
-//   VERIF_C15_PART=a|b|c|d runs one part only (part b needs no model driver).
+//   part (e)  c15_store.go: the monitors of a real store (every way a message leaves it: removal, purge, cap, byte limit), joins at any point.
+//   part (f)  c15_store.go: a backlog of any size between the stores and a hub that is busy, slow or not yet started.
+//
+//   VERIF_C15_PART=a|b|c|d|e|f runs one part only (parts b, c, e, f need no model driver).
 
 import (
 	"bytes"
@@ -242,7 +245,17 @@ func (s c15Seq) lines(withSync bool) []string {
 	return res
 }
 
-func c15GenSeq(r *rand.Rand) c15Seq {
+// Shapes of a generated sequence.  The property quantifies over EVERY sequence of joins and EVERY history length: the number of monitors
+// attached at the same time and the number of retained messages are dimensions of the case like any other, not small constants.
+const (
+	c15Small = iota // history 0..5, 1..4 listeners, 5..40 operations
+	c15Crowd        // tens to hundreds of listeners registered at the same time
+	c15Long         // a history of tens to hundreds of messages, filled and over-filled before and between the joins
+)
+
+var c15ShapeName = []string{"small", "crowd", "long-history"}
+
+func c15GenSeq(r *rand.Rand, shape int) c15Seq {
 	var s c15Seq
 	if r.Intn(10) == 0 {
 		s.n = 0
@@ -250,22 +263,101 @@ func c15GenSeq(r *rand.Rand) c15Seq {
 		s.n = 1 + r.Intn(5)
 	}
 	nl := 1 + r.Intn(4)
+	failPct := 40
+	nops := 5 + r.Intn(36)
+	prefill := 0
+	switch shape {
+	case c15Crowd:
+		nl = []int{20, 50, 63, 64, 65, 66, 90, 127, 129, 160}[r.Intn(10)] + r.Intn(12)
+		failPct = 6
+		nops = 8 + r.Intn(25)
+		if r.Intn(3) == 0 {
+			s.n = 30 + r.Intn(40)
+			prefill = r.Intn(2 * s.n)
+		}
+	case c15Long:
+		switch r.Intn(5) {
+		case 0:
+			s.n = 6 + r.Intn(25)
+		case 1:
+			s.n = 31 + r.Intn(69)
+		case 2:
+			s.n = 100 + r.Intn(3)
+		case 3:
+			s.n = 103 + r.Intn(98)
+		default:
+			s.n = 201 + r.Intn(200)
+		}
+		// anything from a nearly empty ring to one that has wrapped more than once
+		prefill = []int{r.Intn(s.n + 1), s.n - 1 + r.Intn(3), s.n + r.Intn(s.n+1), 2*s.n + r.Intn(20)}[r.Intn(4)]
+	}
 	for i := 0; i < nl; i++ {
 		l := c15L{mb: -1, del: r.Intn(2) == 0}
 		if r.Intn(2) == 0 {
 			l.mb = r.Intn(3)
 		}
-		if r.Intn(5) < 2 {
+		if r.Intn(100) < failPct {
 			l.fail = 1 + r.Intn(8)
+			if shape == c15Long {
+				l.fail = 1 + r.Intn(3*s.n)
+			}
 		}
 		s.ls = append(s.ls, l)
 	}
 	wantDup := r.Intn(100) < 15
-	nops := 5 + r.Intn(36)
 	type key struct{ k, id int }
 	var keys []key
 	seen := map[key]bool{}
 	nextID, tag := 1, 0
+	dispatch := func() {
+		ky := key{r.Intn(3), nextID}
+		if wantDup && len(keys) > 0 && r.Intn(3) == 0 {
+			ky = keys[r.Intn(len(keys))]
+		} else {
+			nextID++
+		}
+		if seen[ky] {
+			s.dup = true
+		}
+		seen[ky] = true
+		keys = append(keys, ky)
+		tag++
+		s.ops = append(s.ops, c15Op{kind: 'D', k: ky.k, id: ky.id, tag: tag})
+	}
+	remove := func() {
+		var ky key
+		switch {
+		case len(keys) > 0 && r.Intn(4) != 0:
+			ky = keys[r.Intn(len(keys))] // dispatched earlier (perhaps deleted already, perhaps out of the window)
+		case len(keys) > 0 && r.Intn(2) == 0:
+			ky = keys[r.Intn(len(keys))]
+			ky.k = (ky.k + 1) % 3 // right id, wrong mailbox
+		default:
+			ky = key{r.Intn(3), 1000000 + r.Intn(5)} // never existed
+		}
+		s.ops = append(s.ops, c15Op{kind: 'X', k: ky.k, id: ky.id})
+	}
+	// messages retained before most of the joins (a few deletions and an early join among them)
+	for i := 0; i < prefill; i++ {
+		dispatch()
+		if x := r.Intn(100); x < 6 {
+			remove()
+		} else if x < 8 {
+			s.ops = append(s.ops, c15Op{kind: 'A', l: r.Intn(nl)})
+		}
+	}
+	if shape == c15Crowd {
+		// most of the crowd joins, in some order, a few events among the joins
+		for _, l := range r.Perm(nl) {
+			if r.Intn(10) == 0 {
+				continue
+			}
+			s.ops = append(s.ops, c15Op{kind: 'A', l: l})
+			if r.Intn(15) == 0 {
+				dispatch()
+			}
+		}
+	}
 	for i := 0; i < nops; i++ {
 		x := r.Intn(100)
 		if i < 2 && r.Intn(2) == 0 {
@@ -273,31 +365,9 @@ func c15GenSeq(r *rand.Rand) c15Seq {
 		}
 		switch {
 		case x < 42:
-			ky := key{r.Intn(3), nextID}
-			if wantDup && len(keys) > 0 && r.Intn(3) == 0 {
-				ky = keys[r.Intn(len(keys))]
-			} else {
-				nextID++
-			}
-			if seen[ky] {
-				s.dup = true
-			}
-			seen[ky] = true
-			keys = append(keys, ky)
-			tag++
-			s.ops = append(s.ops, c15Op{kind: 'D', k: ky.k, id: ky.id, tag: tag})
+			dispatch()
 		case x < 56:
-			var ky key
-			switch {
-			case len(keys) > 0 && r.Intn(4) != 0:
-				ky = keys[r.Intn(len(keys))] // dispatched earlier (perhaps deleted already, perhaps out of the window)
-			case len(keys) > 0 && r.Intn(2) == 0:
-				ky = keys[r.Intn(len(keys))]
-				ky.k = (ky.k + 1) % 3 // right id, wrong mailbox
-			default:
-				ky = key{r.Intn(3), 1000 + r.Intn(5)} // never existed
-			}
-			s.ops = append(s.ops, c15Op{kind: 'X', k: ky.k, id: ky.id})
+			remove()
 		case x < 80:
 			s.ops = append(s.ops, c15Op{kind: 'A', l: r.Intn(nl)})
 		case x < 93:
@@ -392,6 +462,11 @@ func c15Spec(s c15Seq) (recs []string, hist string, buckets map[string]bool) {
 		ev               []string
 	}
 	buckets = map[string]bool{}
+	maxReg, maxReplay := 0, 0
+	defer func() {
+		buckets["a:most-listeners-registered-at-once="+c15Bucket(maxReg)] = true
+		buckets["a:longest-replay-to-a-joining-listener="+c15Bucket(maxReplay)] = true
+	}()
 	var all []*msg
 	ls := make([]*lst, len(s.ls))
 	for i, l := range s.ls {
@@ -475,10 +550,19 @@ func c15Spec(s c15Seq) (recs []string, hist string, buckets map[string]bool) {
 			} else if l.everDropped {
 				buckets["a:re-add-after-drop"] = true
 			}
-			for _, m := range window() {
+			w := window()
+			maxReplay = max(maxReplay, len(w))
+			for _, m := range w {
 				call(l, false, m.k, m.id, m.tag)
 			}
 			l.reg = true
+			nReg := 0
+			for _, x := range ls {
+				if x.reg {
+					nReg++
+				}
+			}
+			maxReg = max(maxReg, nReg)
 		case 'R':
 			l := ls[o.l]
 			if l.reg {
@@ -528,6 +612,46 @@ func c15Perturb(r *rand.Rand, s c15Seq) (c15Seq, int, string) {
 	return t, j, fmt.Sprintf("extra listener %d (all mailboxes, deletes, fail=%d) added at random points", j, t.ls[j].fail)
 }
 
+// c15RecDiff: two records ("c=<calls> e1,e2,…" or "e1,e2,…") side by side; long ones by length and first difference
+func c15RecDiff(got, want, saying string) string {
+	if len(got) <= 300 && len(want) <= 300 {
+		return fmt.Sprintf("%q, %s %q", got, saying, want)
+	}
+	split := func(s string) (string, []string) {
+		head := ""
+		if strings.HasPrefix(s, "c=") {
+			if i := strings.IndexByte(s, ' '); i > 0 {
+				head, s = s[:i]+" ", s[i+1:]
+			}
+		}
+		if s == "_" {
+			return head, nil
+		}
+		return head, strings.Split(s, ",")
+	}
+	hg, g := split(got)
+	hw, w := split(want)
+	return fmt.Sprintf("%s%s, %s %s%s%s", hg, c15Abbrev(g), saying, hw, c15Abbrev(w), c15FirstDiff(g, w))
+}
+
+// c15Bucket: small numbers exactly, larger ones by the range they fall into (64 and 100 are made boundaries on purpose: any "reasonable" bound
+// somebody might build in lies near a round number)
+func c15Bucket(n int) string {
+	switch {
+	case n <= 5:
+		return strconv.Itoa(n)
+	case n <= 30:
+		return "6..30"
+	case n <= 64:
+		return "31..64"
+	case n <= 100:
+		return "65..100"
+	case n <= 200:
+		return "101..200"
+	}
+	return ">200"
+}
+
 func c15PartA(c *core.Ctx, logs *c15LogBuf) {
 	total := c.Scale(3000, 120000)
 	workers := 8
@@ -536,13 +660,44 @@ func c15PartA(c *core.Ctx, logs *c15LogBuf) {
 		m := c.NewModel("hub")
 		defer m.Close()
 		for i := sh; i < total; i += workers {
-			s := c15GenSeq(r)
+			shape := c15Small
+			switch i % 40 {
+			case 7:
+				shape = c15Crowd
+			case 27:
+				shape = c15Long
+			}
+			s := c15GenSeq(r, shape)
 			cas := s.lines(true)
+			if shape != c15Small {
+				cas = append([]string{fmt.Sprintf("# %s: hub history %d, %d listeners, %d operations", c15ShapeName[shape], s.n, len(s.ls), len(s.ops))}, cas...)
+			}
+			cas = cas[:len(cas):len(cas)] // every append below makes its own copy (the failures keep theirs)
 			run := c15RunSeq(s)
 			if run.blocked {
 				c.Fail("hub-blocked", cas, "hub.Sync() did not return within 5 s", "")
 				c.Count(strings.Join(cas, "\n"), false)
 				continue
+			}
+			// --- oracle (before any model is asked): the spec computed directly
+			hist := ""
+			if !s.dup {
+				var recs []string
+				var bk map[string]bool
+				recs, hist, bk = c15Spec(s)
+				for b := range bk {
+					c.H(b)
+				}
+				for l := range s.ls {
+					if recs[l] != run.recs[l] {
+						c.Fail("hub-delivers", append(cas, fmt.Sprintf("listener %d", l)),
+							fmt.Sprintf("listener %d recorded %s", l, c15RecDiff(run.recs[l], recs[l], "the delivery spec says")), "")
+						break
+					}
+				}
+				if hist != run.hist {
+					c.Fail("hub-delivers", cas, "a fresh listener is replayed "+c15RecDiff(run.hist, hist, "the history spec (the last N dispatched messages that were not deleted since) says"), "")
+				}
 			}
 			// --- model
 			ask := s.lines(false)
@@ -564,29 +719,14 @@ func c15PartA(c *core.Ctx, logs *c15LogBuf) {
 				for l := range s.ls {
 					if out[nCmd+l] != run.recs[l] {
 						c.Diverge("hub-listener", append(cas, fmt.Sprintf("listener %d", l)), run.recs[l], out[nCmd+l])
+						break
 					}
 				}
 				if out[nCmd+len(s.ls)] != run.hist {
 					c.Diverge("hub-history", cas, run.hist, out[nCmd+len(s.ls)])
 				}
 				c.Compared(len(s.ls) + 1)
-			}
-			// --- oracle: the spec computed directly
-			if !s.dup {
-				recs, hist, bk := c15Spec(s)
-				for b := range bk {
-					c.H(b)
-				}
-				for l := range s.ls {
-					if recs[l] != run.recs[l] {
-						c.Fail("hub-delivers", append(cas, fmt.Sprintf("listener %d", l)),
-							fmt.Sprintf("listener %d recorded %q, the delivery spec says %q", l, run.recs[l], recs[l]), "")
-					}
-				}
-				if hist != run.hist {
-					c.Fail("hub-delivers", cas, fmt.Sprintf("a fresh listener is replayed %q, the history spec says %q", run.hist, hist), "")
-				}
-				if protoOK {
+				if !s.dup {
 					c.Compared(1)
 					if out[nCmd+len(s.ls)+1] != hist {
 						c.Diverge("hub-spec", cas, hist, out[nCmd+len(s.ls)+1])
@@ -612,8 +752,10 @@ func c15PartA(c *core.Ctx, logs *c15LogBuf) {
 			}
 			// --- accounting
 			c.Count(strings.Join(cas, "\n"), s.n > 0 && run.events > 0)
-			c.H(fmt.Sprintf("a:N=%d", s.n))
-			c.H(fmt.Sprintf("a:listeners=%d", len(s.ls)))
+			c.H("a:shape=" + c15ShapeName[shape])
+			c.H("a:N=" + c15Bucket(s.n))
+			c.H("a:listeners=" + c15Bucket(len(s.ls)))
+
 			if s.dup {
 				c.H("a:dupkeys")
 			} else {
@@ -1457,6 +1599,12 @@ func runC15(c *core.Ctx) {
 	}
 	if part == "" || part == "d" {
 		c15PartD(c, logs)
+	}
+	if part == "" || part == "e" {
+		c15PartE(c)
+	}
+	if part == "" || part == "f" {
+		c15PartF(c)
 	}
 	if part != "" {
 		c.Note("VERIF_C15_PART=%s: only that part was run", part)
